@@ -9,7 +9,7 @@ CONSTANTS Paths = {1, 2}
           EmitOn = TRUE
           Sim = TRUE
 INIT Init
-NEXT Next
+NEXT NextSim
 INVARIANT StaleHasCause
 INVARIANT ModeRespected
 INVARIANT TypeOk
